@@ -35,7 +35,9 @@ type CacheScen struct {
 	CBReenter bool
 	Payload   bool // values are *payload (race check)
 	Def       time.Duration // default expiration given at construction (0 = none)
-	Classes   int
+	// Warm: the cache has already run a cleanup pass that evicted two entries (start from a non-initial state)
+	Warm    bool
+	Classes int
 	CheckFn   bool
 	NoBlock   []bool
 	MaxSteps  []int
@@ -55,6 +57,9 @@ func (cs *CacheScen) name() string {
 	}
 	if cs.CBReenter {
 		sb.WriteString("/reentrant-callback")
+	}
+	if cs.Warm {
+		sb.WriteString("/after-an-earlier-cleanup-pass")
 	}
 	for t, ops := range cs.Threads {
 		fmt.Fprintf(&sb, " T%d:", t)
@@ -117,6 +122,17 @@ func (cs *CacheScen) setup(l *tledger) (CacheLike, CState) {
 	if cs.Callback {
 		st.CB = 1
 	}
+	if cs.Warm {
+		c.Set(fillSpread+500, 1, 1)
+		c.Set(fillSpread+501, 1, 1)
+		vtime.VAdvance(3)
+		st.Now += 3
+		c.DeleteExpired()
+		if c.Count() != 0 || len(c.Physical()) != 0 {
+			panic("cache prologue: the warm-up cleanup pass left entries behind")
+		}
+		l.take(sched.MaxThreads)
+	}
 	for k := 0; k < cs.NKeys; k++ {
 		switch cs.Init[k] {
 		case ILive:
@@ -124,10 +140,10 @@ func (cs *CacheScen) setup(l *tledger) (CacheLike, CState) {
 			st.Ent[k] = CEntry{V: int32(k + 1), P: true}
 		case ILiveTTL:
 			c.Set(k, k+1, farTTL)
-			st.Ent[k] = CEntry{V: int32(k + 1), E: epochNs + int64(farTTL), P: true}
+			st.Ent[k] = CEntry{V: int32(k + 1), E: st.Now + int64(farTTL), P: true}
 		case IExpired:
 			c.Set(k, k+1, 2)
-			st.Ent[k] = CEntry{V: int32(k + 1), E: epochNs + 2, P: true}
+			st.Ent[k] = CEntry{V: int32(k + 1), E: st.Now + 2, P: true}
 		}
 	}
 	if cs.Table == TGrowArmed {
